@@ -946,6 +946,11 @@ namespace mon
          I.n = g.nodes;
          I.eolpol = cfg.eolpol;
          I.in = input;
+         // the vetoing attachments of this configuration change which parts of the grammar are reached: the reference that
+         // decides "this pair loops without progress, skip it" has to evaluate them too (same predicate as on_buf_veto)
+         std::vector< int > ak;
+         if( g.akinds ) { ak.assign( g_names.size(), 0 ); for( std::size_t i = 0; i < ak.size(); ++i ) ak[ i ] = g.akinds[ i ]; I.akinds = ak.data(); }
+         I.salt = g.salt;
          ref::ctx c0;
          const ref::outcome ro = I.ev( g.top, 0, input.size(), c0 );
          if( I.loop || ro.st == ref::LOOP ) { cell( "skipped:reference-loop" ); return; }
